@@ -169,3 +169,118 @@ def check(ctx, ids):
             eid, e["why"], ", ".join("%s x%d" % (last_seg(k) if e["kind"] == "std" else k.replace("nexosim/src/", ""), v) for k, v in sorted(allowed.items())),
             ", ".join("%s x%d" % (last_seg(k) if e["kind"] == "std" else k.replace("nexosim/src/", ""), v) for k, v in sorted(cen.items())))
         ctx.ob("inventory|%s" % eid, not over, what, bad or sites)
+
+
+# ---------------------------------------------------------------------------------------------------------------------------
+# Await inventory: which kinds of future are polled on the delivery / execution path, per file.
+#
+# The delivery clauses argue "a send completes only once the message is in the recipient's mailbox" by checking the completion rule of
+# every future on the path from Output::send / EventSource::event down to channel::Sender::send: BroadcastFuture::poll (count, re-poll
+# discipline), RecycledFuture, SeqFuture, the channel's wait loops. That argument enumerates the futures; a future of a new kind polled
+# on that path (a hand-written join of two sends, a timeout wrapper, a select) completes by a rule nothing here has checked, so it is
+# reported instead of being silently trusted.
+
+_NOISE = {
+    "std::pin::Pin", "std::boxed::Box", "std::result::Result", "std::option::Option", "std::future::Future", "std::marker::Send",
+    "std::marker::Sync", "std::iter::Iterator", "std::ops::FnOnce", "std::ops::FnMut",
+}
+_PATH = re.compile(r"[A-Za-z_][A-Za-z_0-9]*(?:::[A-Za-z_][A-Za-z_0-9]*)+")
+
+
+def await_kind(site):
+    """A stable description of what is being polled: the resolved callee when it is a coroutine, and the named types in the
+    polled place's type (closure source positions and lifetimes removed)."""
+    from ..core import norm
+    n = site.node
+    t = (n.get("argtys") or [""])[0]
+    t = re.sub(r"\{closure@[^}]*\}", "{closure}", t)
+    names = sorted(set(norm(x) for x in _PATH.findall(t)) - _NOISE)
+    if "dyn std::future::Future" in t:
+        names.append("dyn Future")
+    if "impl std::future::Future" in t:
+        names.append("impl Future")
+    r = n.get("resolved_n")
+    if r and "{closure" in r:
+        names.append("=" + r)
+    if not names:
+        names.append("generic parameter")
+    return " + ".join(names)
+
+
+AWAIT_FILES = {
+    # file -> kinds of future polled there today (each read and matched with the rule that covers its completion)
+    "nexosim/src/ports/output/broadcaster.rs": {
+        "channel::SendError + ports::output::sender::RecycledFuture",     # single-recipient arm, and the sub-futures polled by BroadcastFuture::poll
+        "ports::output::broadcaster::BroadcastFuture",                     # multi-recipient arm (C02.c/C03.c/C04.h/C14.* poll rules)
+    },
+    "nexosim/src/ports/source/broadcaster.rs": {
+        "channel::SendError + dyn Future",                                 # boxed sender futures (single arm + sub-futures)
+        "ports::source::broadcaster::BroadcastFuture",
+    },
+    "nexosim/src/ports/output.rs": {
+        "channel::SendError + impl Future + =ports::output::broadcaster::EventBroadcaster::broadcast::{closure#0}",
+        "channel::SendError + impl Future + =ports::output::broadcaster::QueryBroadcaster::broadcast::{closure#0}",
+        "channel::SendError + ports::output::sender::RecycledFuture",     # UniRequestor
+    },
+    "nexosim/src/ports/source.rs": {
+        "channel::SendError + impl Future + =ports::source::broadcaster::EventBroadcaster::broadcast::{closure#0}",
+        "channel::SendError + ports::source::broadcaster::ReplyIterator + impl Future + =ports::source::broadcaster::QueryBroadcaster::broadcast::{closure#0}",
+    },
+    "nexosim/src/ports/output/sender.rs": {
+        "channel::SendError + impl Future + =channel::Sender::send::{closure#0}",
+        "dyn Future",                                                      # RecycledFuture::poll delegating to the boxed future
+        "multishot::Recv",                                                 # reply of a replier
+        "ports::input::model_fn::ReplierFn",                               # the replier's own future, run by the recipient
+    },
+    "nexosim/src/ports/source/sender.rs": {
+        "channel::SendError + impl Future + =channel::Sender::send::{closure#0}",
+        "futures_channel::oneshot::Receiver",
+        "ports::input::model_fn::ReplierFn",
+    },
+    "nexosim/src/channel.rs": {
+        "async_event::WaitUntil",                                          # sender's wait for space
+        "channel::MessageFn + channel::queue::MessageBorrow + diatomic_waker::WaitUntil",   # receiver's wait for a message
+        "dyn Future",                                                      # the handler future run by recv
+    },
+    "nexosim/src/util/seq_futures.rs": {"generic parameter"},
+    "nexosim/src/simulation/scheduler.rs": {
+        "channel::SendError + impl Future + =channel::Sender::send::{closure#0}",
+        "generic parameter",                                               # OnceAction polling its wrapped future
+        "ports::input::model_fn::InputFn",
+    },
+    "nexosim/src/simulation.rs": {
+        "channel::RecvError + impl Future + =channel::Receiver::recv::{closure#0}",
+        "channel::SendError + impl Future + =channel::Sender::send::{closure#0}",
+        "generic parameter",                                               # ModelFuture polling the model loop
+        "model::InitializedModel + model::ProtoModel + impl Future",      # Model::init
+        "ports::input::model_fn::ReplierFn",
+    },
+}
+
+
+def await_census(prog, file):
+    cen = collections.defaultdict(list)
+    for b in prog.all_bodies():
+        if "::tests" in b.name or b.file != file:
+            continue
+        for s in b.calls(r"^std::future::Future::poll$"):
+            cen[await_kind(s)].append(s)
+    return cen
+
+
+def check_awaits(ctx, files=None):
+    """One obligation per file of the delivery / execution path: no future of an unreviewed kind is polled there."""
+    P = ctx.prog
+    for f in (files or sorted(AWAIT_FILES)):
+        cen = await_census(P, f)
+        if not cen:
+            ctx.missing("await inventory: no Future::poll site in " + f)
+            continue
+        allowed = AWAIT_FILES[f]
+        new = sorted(k for k in cen if k not in allowed)
+        bad = [s for k in new for s in cen[k]]
+        ctx.ob("awaits|%s" % f.replace("nexosim/src/", ""), not new,
+               "every future polled in %s is of a kind whose completion rule is covered (%d kinds, %d poll sites)%s" % (
+                   f, len(allowed), sum(len(v) for v in cen.values()),
+                   "; unreviewed: " + "; ".join(new) if new else ""),
+               bad or [s for v in cen.values() for s in v][:6])
